@@ -392,22 +392,40 @@ def run_dispose(res, ast):
         w = where(SV, lp, name)
         rng = strip_paren(lp["expr"])
         ivar = lp["pat"].get("name")
-        # range must be first..old_size with old_size = self.size saved before size is reset
+        # range must be first..old_size with old_size = self.size saved before size is reset.  "Before" is structural (statements that precede
+        # the loop in its block or in an enclosing block), not by line number: inlined helpers keep their own spans
+        from iolim import parents as _parents
+        par_l = _parents(f["node"])
+        prior = []
+        cur_ = lp
+        while id(cur_) in par_l:
+            pn_, k_ = par_l[id(cur_)]
+            if pn_["t"] == "Block":
+                idx_ = next((j_ for j_, s_ in enumerate(pn_["stmts"]) if s_ is cur_ or any(x is cur_ for x in walk(s_))), None)
+                if idx_ is not None:
+                    prior = pn_["stmts"][:idx_] + prior
+            cur_ = pn_
+        before_ids = {id(n_) for s_ in prior for n_ in walk(s_)}
         saved = [n["pat"]["name"] for n in walk_t(body, "Local") if n["pat"]["t"] == "PIdent" and n["init"] is not None
-                 and size_of(n["init"]) == "self" and n["sp"][0] < lp["sp"][0]]
+                 and size_of(n["init"]) == "self" and id(n) in before_ids]
         sname = saved[0] if len(saved) == 1 else "old_size"
         okr = rng["t"] == "Range" and not rng["closed"] and int_lit(rng["start"]) == first and idx_name(rng["end"]) == sname
         res.check(okr, "SV-DISPOSE", key0 + "|range", w, f"{name}: loop range is `{ast.src1(SV, rng)}`, expected {first}..<the length saved before the loop>")
         # old_size = self.size before `self.size = first`
         seq = []
-        for n in walk(body):
-            if n.get("t") == "Local" and n["pat"].get("name") == sname and n["init"] is not None and size_of(n["init"]) == "self":
-                seq.append(("save", n["sp"][0]))
-            if n.get("t") == "Assign" and size_of(n["left"]) == "self":
-                seq.append(("reset", n["sp"][0], int_lit(n["right"])))
+        order = 0
+        for s_ in prior:
+            for n in walk(s_):
+                order += 1
+                if n.get("t") == "Local" and n["pat"].get("name") == sname and n["init"] is not None and size_of(n["init"]) == "self":
+                    seq.append(("save", order))
+                if n.get("t") == "Assign" and size_of(n["left"]) == "self":
+                    seq.append(("reset", order, int_lit(n["right"])))
+        # an assignment of the tag anywhere else than before the loop (apart from `size += 1` inside it) is a second reset
+        stray = [n for n in walk_t(body, "Assign") if size_of(n["left"]) == "self" and id(n) not in before_ids]
         saves = [s for s in seq if s[0] == "save"]
         resets = [s for s in seq if s[0] == "reset"]
-        okp = len(saves) == 1 and len(resets) == 1 and saves[0][1] < resets[0][1] < lp["sp"][0] and resets[0][2] == first
+        okp = len(saves) == 1 and len(resets) == 1 and not stray and saves[0][1] < resets[0][1] and resets[0][2] == first
         if okp and first == 1:
             # dedup keeps the first element unconditionally: that is only right when there is one
             import pm
@@ -566,7 +584,7 @@ def run_dispose(res, ast):
             for n in walk_t(body, "If"):
                 if not disc_test(n["cond"]) and any(a is x for a in assigns for x in walk(n["then"])):
                     inguard = True
-            res.check(len(assigns) == 1 and int_lit(assigns[0]["right"]) == 0 and not inguard and assigns[0]["sp"][0] > lp["sp"][2],
+            res.check(len(assigns) == 1 and int_lit(assigns[0]["right"]) == 0 and not inguard and before(lp, assigns[0]),
                       "SV-DISPOSE", key0 + "|reset", w, "clear: `self.size = 0` must follow the drop loop unconditionally on the inline path")
 
 
